@@ -79,7 +79,7 @@ pub proof fn bv64_shift_usize(b: usize) requires b < 64 ensures (1u64 << b) == (
 /// text of raw token i (what `LexedStr::text(i)` returns)
 pub uninterp spec fn tok_text(l: &LexedStr<'_>, i: int) -> Seq<char>;
 /// D14: `s.ends_with('.')` (str pattern API, outside the dialect) -> an uninterpreted test of the text
-pub uninterp spec fn ends_dot(s: Seq<char>) -> bool;
+pub open spec fn ends_dot(s: Seq<char>) -> bool { s.len() > 0 && s.last() == '.' }
 /// index, in the parser input, of raw token a (defined for non-trivia a)
 pub open spec fn idx(l: &LexedStr<'_>, a: int) -> int { non_trivia(l.kind@.take(a)).len() as int }
 pub open spec fn float_rule(l: &LexedStr<'_>, a: int) -> bool { l.kind@[a] == SyntaxKind::FLOAT_NUMBER && !ends_dot(tok_text(l, a)) }
